@@ -6,7 +6,7 @@
   `∀ cx` theorems hold for every Decimal rounding and every float semantics; theorems about sums and
   cash are stated for `DCtx.exact` (Decimal arithmetic exact, book floats read as reals).
 -/
-import Proofs.Lemmas.Deribit
+import Proofs.Lemmas.DeribitNorm
 import Mathlib.Tactic.FieldSimp
 namespace Demeter
 open Demeter.Deribit
@@ -149,31 +149,35 @@ theorem C15_limit_single_fill (cx : DCtx) (a : Rat) (ls : List Level) (l : Level
       simp only [List.filter_cons, hne, decide_false]
       exact ih hmem hd.2
 
-/-- **price cap relative to mark (buy)**: with `max_mark_price_multiple = m` every fill comes from an ask
-    strictly below `m × mark` -/
+/-- **price cap relative to mark (buy)**: with `max_mark_price_multiple = m` every fill comes from a level of the
+    normalised asks (best first, one level per price — its price is a price of the raw data) strictly below `m × mark` -/
 theorem C15_buy_cap_excludes_worse (cx : DCtx) (c : TokenCfg) (s s' : DState) (r : Req) (m : Rat)
     (fills : List Fill) (fee : Rat) (hm : r.mult = some m)
     (h : buy cx c s r = (.ok (.trade fills fee), s')) :
     ∃ ins, findInstr s.book r.name = some ins ∧
-      ∀ f ∈ fills, ∃ l ∈ ins.asks, l.price < cx.num.mul m ins.mark ∧ f.price = cx.reprD l.price := by
+      ∀ f ∈ fills, ∃ l ∈ normSide cx true ins.asks, l.price < cx.num.mul m ins.mark ∧ f.price = cx.reprD l.price ∧
+        ∃ l0 ∈ ins.asks, l0.price = l.price := by
   obtain ⟨_, ck, hck, fills', _, _, hfills, _, _, hres, _⟩ := buy_ok h
   simp only [Res.trade.injEq] at hres
   obtain ⟨rfl, _⟩ := hres
-  refine ⟨ck.ins, (checkTx_ok hck).1, ?_⟩
+  obtain ⟨⟨ins0, hfind, hnorm⟩, _⟩ := checkTx_ok hck
+  refine ⟨ins0, hfind, ?_⟩
   intro f hf
   rw [hfills] at hf
   have ha : availSide cx ck.ins r.mult true = .ok (availAsks cx ck.ins r.mult) := by simp [availSide]
   obtain ⟨l, hl, hp⟩ := fills_from_avail hck ha hf
-  simp only [availAsks, hm] at hl
+  rw [hnorm] at hl
+  simp only [availAsks, hm, normInstr_asks, normInstr_mark] at hl
   obtain ⟨hl1, hl2⟩ := List.mem_filter.mp hl
-  exact ⟨l, hl1, by simpa using hl2, hp⟩
+  exact ⟨l, hl1, of_decide_eq_true hl2, hp, normSide_mem_price hl1⟩
 
 /-- **price floor relative to mark (sell)**: every fill comes from a bid strictly above `mark / m` -/
 theorem C15_sell_cap_excludes_worse (cx : DCtx) (c : TokenCfg) (s s' : DState) (r : Req) (m : Rat)
     (fills : List Fill) (fee : Rat) (hm : r.mult = some m)
     (h : sell cx c s r = (.ok (.trade fills fee), s')) :
     ∃ ins, findInstr s.book r.name = some ins ∧ m ≠ 0 ∧
-      ∀ f ∈ fills, ∃ l ∈ ins.bids, cx.num.div ins.mark m < l.price ∧ f.price = cx.reprD l.price := by
+      ∀ f ∈ fills, ∃ l ∈ normSide cx false ins.bids, cx.num.div ins.mark m < l.price ∧ f.price = cx.reprD l.price ∧
+        ∃ l0 ∈ ins.bids, l0.price = l.price := by
   obtain ⟨_, ck, p, bids, hck, _, _, hb, fills', _, _, hfills, _, _, hres, _⟩ := sell_ok h
   simp only [Res.trade.injEq] at hres
   obtain ⟨rfl, _⟩ := hres
@@ -185,13 +189,15 @@ theorem C15_sell_cap_excludes_worse (cx : DCtx) (c : TokenCfg) (s s' : DState) (
     · simp at hb
     · rename_i heq; split at heq <;> simp at heq
   · simp only [hm0, if_false, Except.ok.injEq] at hb
-    refine ⟨ck.ins, (checkTx_ok hck).1, hm0, ?_⟩
+    obtain ⟨⟨ins0, hfind, hnorm⟩, _⟩ := checkTx_ok hck
+    refine ⟨ins0, hfind, hm0, ?_⟩
     intro f hf
     rw [hfills] at hf
     obtain ⟨l, hl, hp⟩ := fills_from_avail hck ha hf
-    rw [← hb] at hl
+    rw [← hb, hnorm] at hl
+    simp only [normInstr_bids, normInstr_mark] at hl
     obtain ⟨hl1, hl2⟩ := List.mem_filter.mp hl
-    exact ⟨l, hl1, by simpa using hl2, hp⟩
+    exact ⟨l, hl1, of_decide_eq_true hl2, hp, normSide_mem_price hl1⟩
 
 /-- level count and prices of a side never change when fills are written back (every context) -/
 theorem C15_book_prices_kept (cx : DCtx) (old : List Level) (fs : List Fill) :
@@ -304,13 +310,14 @@ theorem C15_buy_market_fills_rounded_amount (c : TokenCfg) (s s' : DState) (r : 
   obtain ⟨_, ck, hck, fills', prem, fee', hfills, _, _, hres, _⟩ := buy_ok h
   simp only [Res.trade.injEq] at hres
   obtain ⟨rfl, rfl⟩ := hres
-  obtain ⟨hfind, _, hmin, hamt, avail, ha, hcase⟩ := checkTx_ok hck
+  obtain ⟨⟨ins0, hfind, hnorm⟩, _, hmin, hamt, avail, ha, hcase⟩ := checkTx_ok hck
   have hav : avail = availAsks DCtx.exact ck.ins r.mult := by simpa [availSide] using ha.symm
   have hnn : 0 ≤ ck.amount := by
     rw [hamt]; exact roundDec_nonneg _ (le_trans (minAmount_pos c).le hmin)
   have hsz : ∀ l ∈ avail, 0 ≤ l.size := by
     intro l hl
-    have hins := (hb ck.ins (findInstr_mem hfind)).1
+    have hins : ∀ l ∈ ck.ins.asks, 0 ≤ l.size := by
+      rw [hnorm]; exact normSide_nonneg (hb ins0 (findInstr_mem hfind)).1
     rw [hav] at hl
     unfold availAsks at hl
     split at hl
@@ -331,14 +338,15 @@ theorem C15_sell_market_fills_rounded_amount (c : TokenCfg) (s s' : DState) (r :
   obtain ⟨_, ck, p, bids, hck, _, _, hbids, fills', prem, fee', hfills, _, _, hres, _⟩ := sell_ok h
   simp only [Res.trade.injEq] at hres
   obtain ⟨rfl, rfl⟩ := hres
-  obtain ⟨hfind, _, hmin, hamt, avail, ha, hcase⟩ := checkTx_ok hck
+  obtain ⟨⟨ins0, hfind, hnorm⟩, _, hmin, hamt, avail, ha, hcase⟩ := checkTx_ok hck
   have hav : avail = bids := by
     simp only [availSide, Bool.false_eq_true, if_false, hbids, Except.ok.injEq] at ha; exact ha.symm
   have hnn : 0 ≤ ck.amount := by
     rw [hamt]; exact roundDec_nonneg _ (le_trans (minAmount_pos c).le hmin)
   have hsz : ∀ l ∈ bids, 0 ≤ l.size := by
     intro l hl
-    have hins := (hb ck.ins (findInstr_mem hfind)).2
+    have hins : ∀ l ∈ ck.ins.bids, 0 ≤ l.size := by
+      rw [hnorm]; exact normSide_nonneg (hb ins0 (findInstr_mem hfind)).2
     unfold availBids at hbids
     split at hbids
     · simp only [Except.ok.injEq] at hbids; exact hins l (hbids ▸ hl)
@@ -357,13 +365,13 @@ theorem C15_sell_market_fills_rounded_amount (c : TokenCfg) (s s' : DState) (r :
     level shows at least the (rounded) amount -/
 theorem C15_limit_price_within_tolerance (c : TokenCfg) (s s' : DState) (r : Req) (p : Rat) (fills : List Fill) (fee : Rat)
     (hp : r.priceTok = some p) (h : buy DCtx.exact c s r = (.ok (.trade fills fee), s')) :
-    ∃ ins l, findInstr s.book r.name = some ins ∧ l ∈ ins.asks ∧
+    ∃ ins l, findInstr s.book r.name = some ins ∧ l ∈ normSide DCtx.exact true ins.asks ∧
       (1 - 1 / 1000) * p < l.price ∧ l.price < (1 + 1 / 1000) * p ∧ roundDec c.tradeExp r.amount ≤ l.size ∧
       ∀ f ∈ fills, f = ⟨l.price, roundDec c.tradeExp r.amount⟩ := by
   obtain ⟨_, ck, hck, fills', prem, fee', hfills, _, _, hres, _⟩ := buy_ok h
   simp only [Res.trade.injEq] at hres
   obtain ⟨rfl, rfl⟩ := hres
-  obtain ⟨hfind, _, _, hamt, avail, ha, hcase⟩ := checkTx_ok hck
+  obtain ⟨⟨ins0, hfind, hnorm⟩, _, _, hamt, avail, ha, hcase⟩ := checkTx_ok hck
   have hav : avail = availAsks DCtx.exact ck.ins r.mult := by simpa [availSide] using ha.symm
   rcases hcase with ⟨hrp, _, _⟩ | ⟨q, l, rest, hrp, hfa, hpr, hle⟩
   · simp [reqPrice, hp] at hrp
@@ -382,7 +390,7 @@ theorem C15_limit_price_within_tolerance (c : TokenCfg) (s s' : DState) (r : Req
       split at hl1
       · exact hl1
       · exact (List.mem_filter.mp hl1).1
-    refine ⟨ck.ins, l, hfind, hlasks, hl2.1, hl2.2, hamt ▸ hle, ?_⟩
+    refine ⟨ins0, l, hfind, by rw [hnorm] at hlasks; exact hlasks, hl2.1, hl2.2, hamt ▸ hle, ?_⟩
     intro f hf
     rw [hfills, hpr] at hf
     have := deductLimit_mem hf
@@ -529,14 +537,17 @@ theorem C15_trades_need_open_market (cx : DCtx) (c : TokenCfg) (s : DState) (r :
 theorem C15_following_order_sees_shrunken_book (cx : DCtx) (c : TokenCfg) (s : DState) (o : Op) (os : List Op) :
     runOps cx c s (o :: os) = runOps cx c (step cx c s o).2 os := rfl
 
-/-- … and the book an accepted buy leaves is the old book with the asks of that instrument rewritten -/
+/-- … and the book an accepted buy leaves is the old book with the asks of that instrument rewritten: the normalised
+    side (best first, one level per price) minus the fills -/
 theorem C15_buy_book (cx : DCtx) (c : TokenCfg) (s s' : DState) (r : Req) (fills : List Fill) (fee : Rat)
     (h : buy cx c s r = (.ok (.trade fills fee), s')) :
-    ∃ ins, findInstr s.book r.name = some ins ∧ s'.book = setAsks s.book r.name (newOrderList cx ins.asks fills) := by
+    ∃ ins, findInstr s.book r.name = some ins ∧
+      s'.book = setAsks s.book r.name (newOrderList cx (normSide cx true ins.asks) fills) := by
   obtain ⟨_, ck, hck, fills', _, _, _, _, _, hres, _, _, hs'⟩ := buy_ok h
   simp only [Res.trade.injEq] at hres
   obtain ⟨rfl, _⟩ := hres
-  exact ⟨ck.ins, (checkTx_ok hck).1, by rw [hs']⟩
+  obtain ⟨⟨ins0, hfind, hnorm⟩, _⟩ := checkTx_ok hck
+  exact ⟨ins0, hfind, by rw [hs', hnorm]; rfl⟩
 
 /-! ### non-vacuity: a concrete book on which the hypotheses hold and the operations succeed -/
 
